@@ -113,6 +113,23 @@ theorem C08_resume_reannounces (cfg : Cfg) (mem : Rec) (st : OpSt) (hp : mem.run
   · simp [Routing.route, Gen.outboxTopicKind, w, Gen.RunStateRequestedDataDeleted, Gen.RunStatePaused, Gen.RunStateCancelled,
       Gen.RunStateDataDeleted, Gen.RunStateCompleted]
 
+/-- A refused request leaves the CONTROLLER'S OWN record exactly as it was: the next request made through the same controller
+(handle) is judged from the state the run was really in — in particular Pause, refused on a cancelled run, cannot make a
+following Resume look legal. For every environment; nothing is written, no adapter is called. -/
+theorem C08_refused_request_leaves_handle (cfg : Cfg) (mem : Rec) (op : RS.CtlOp) (env : Env) (st : OpSt)
+    (h : RS.allowed mem.runState (RS.target op) = false) :
+    (ctlUpdateMem cfg mem op env st).1 = .ok (mem, some (.err (errInvalidRunState mem.runState (RS.target op)))) ∧
+    (ctlUpdateMem cfg mem op env st).2 = st := by
+  unfold ctlUpdateMem
+  simp only [h, Bool.false_eq_true, if_false]
+  exact ⟨rfl, rfl⟩
+
+/-- … so on a cancelled, data-deleted or deletion-requested run every Pause / Resume / Cancel made through one controller, in
+any order and any number, is refused: the handle never leaves the stopped state it started in. -/
+theorem C08_stopped_handle_stays (mem : Rec) (op : RS.CtlOp) (hs : mem.runState = 4 ∨ mem.runState = 6 ∨ mem.runState = 7)
+    (hop : op = .pause ∨ op = .resume ∨ op = .cancel) : RS.allowed mem.runState (RS.target op) = false := by
+  rcases hs with h | h | h <;> rcases hop with rfl | rfl | rfl <;> rw [h] <;> decide +kernel
+
 /-- non-vacuity: pause at status 1 through a fresh controller, a redelivered pre-pause event does nothing, resume, the
 step then runs once on the object it was paused with (7) and advances the run -/
 example :
